@@ -66,7 +66,7 @@ def run_case(c):
             loc = d + '/' + n
             pv = loc if td == scen.HOME_TRASH else loc[len('/mnt/v1/'):]
             from urllib.parse import quote
-            scen.add_trashed(W, td, n + suf, quote(pv, '/'), '2021-01-01T00:00:00', payload='file', tag=loc)
+            scen.add_trashed(W, td, n + suf, quote(pv, '/'), '2021-01-01T00:00:00', payload=('ldir' if (n, suf) == ('a', '') and td == scen.HOME_TRASH else 'file'), tag=loc)
             ents.append((td, n + suf, loc))
     for n in c['names'][:1]:
         loc = '/home/u/w/' + n
